@@ -48,6 +48,7 @@ example : ∃ _ : Pipeline (List Nat) (List Nat) Bool Unit, True :=
 /-- Reads that are not cosmetic although the name matches, each with its reason. -/
 def allowed : List (String × String × String) :=
   [ ("interp", "Runner.readLine", "Time"),   -- `time.Time`, the Go package, not TimeClause.Time
+    ("interp", "Runner.builtin", "Time"),    -- `time.Time{}` (mapfile's read deadline reset, fix 5c04a9d), the Go package again
     ("interp", "Runner.cmd", "InPos"),       -- `for x; do` vs `for x in …`: presence of `in` is semantic and printed
     ("expand", "Config.wordField", "Dollar"),  -- SglQuoted/DblQuoted.Dollar (bool): $'…' is semantic and printed
     ("expand", "Config.wordFields", "Dollar") ]
